@@ -4,20 +4,33 @@ use model::Report;
 
 use crate::common::Ctx;
 
+pub mod c01;
+pub mod c04;
+pub mod c07;
 pub mod c08;
+pub mod c14;
 pub mod shared;
 
 pub fn is_worker(what: &str) -> bool {
-    what.ends_with("-worker")
+    what.ends_with("-worker") || what.ends_with("-cases")
 }
 
-pub fn run_worker(what: &str, _ctx: &Ctx, _extra: &[String]) {
-    eprintln!("unknown worker {what}");
-    std::process::exit(3);
+pub fn run_worker(what: &str, ctx: &Ctx, extra: &[String]) {
+    match what {
+        "c14-cases" => c14::cases(ctx, extra),
+        "c14-worker" => crate::common::on_big_stack(c14::worker),
+        _ => {
+            eprintln!("unknown worker {what}");
+            std::process::exit(3);
+        }
+    }
 }
 
 pub fn run(what: &str, ctx: &Ctx, _extra: &[String]) -> Option<Report> {
     Some(match what {
+        "C01" => c01::run(ctx),
+        "C04" => c04::run(ctx),
+        "C07" => c07::run(ctx),
         "C08" => c08::run(ctx),
         _ => return None,
     })
